@@ -70,6 +70,7 @@
 #define START_ii(fn, t, k0, k1) CAT(fn, _start)(SP, t, k0, k1)
 #define START_if(fn, t, k0, k1) CAT(fn, _start)(SP, t, k0, k1)
 #define START_t(fn, t, k0, k1)  CAT(fn, _start)(SP, t)
+#define START_g(fn, t, k0, k1)  CAT(fn, _start)(SP, t, k0)
 
 #if MULTI
 struct S_class_tbb__detail__d2__concurrent_unordered_multiset SET;
@@ -152,7 +153,7 @@ void _ZN3tbb6detail2r115throw_exceptionENS0_2d012exception_idE(u32 id) { VP_ASSE
 void vp_rec_limit(void) { VP_ASSERT(0, "VP bound: init_bucket recursed deeper than the unrolled depth"); }
 
 /* ---- history */
-enum { OP_NONE = 0, OP_INSERT = 1, OP_FIND = 2, OP_TRAVERSE = 3, OP_COUNT = 4 };
+enum { OP_NONE = 0, OP_INSERT = 1, OP_FIND = 2, OP_TRAVERSE = 3, OP_COUNT = 4, OP_GETBUCKET = 5 };
 #ifndef NV
 #define NV 4
 #endif
@@ -163,6 +164,8 @@ void vp_op_begin(u32 tid, u32 slot, u32 kind, u32 key) { struct op* o = &H[tid][
 void vp_ins_result(u32 tid, u32 slot, u32 key, u32 ok, u32 itkey) { struct op* o = &H[tid][slot]; o->done = 1; o->ok = ok; o->itkey = itkey; o->res = ++clk; }
 void vp_find_result(u32 tid, u32 slot, u32 key, u32 found, u32 itkey) { struct op* o = &H[tid][slot]; o->done = 1; o->ok = found; o->itkey = itkey; o->res = ++clk; }
 void vp_seen(u32 tid, u32 slot, u32 key) { struct op* o = &H[tid][slot]; VP_ASSERT(o->nseen < MAXSEEN, "traversal visited more elements than were ever inserted"); if (o->nseen < MAXSEEN) o->seen[o->nseen++] = key; }
+u8* got_bucket[3];
+void vp_bucket_result(u32 tid, u32 slot, u64 bucket, u8* node) { struct op* o = &H[tid][slot]; o->done = 1; o->res = ++clk; got_bucket[tid] = node; }
 void vp_trav_end(u32 tid, u32 slot) { struct op* o = &H[tid][slot]; o->done = 1; o->res = ++clk; }
 
 static const int PRE[4] = { PRE0, PRE1, PRE2, PRE3 };
@@ -172,7 +175,8 @@ static int ins_done_before(int k, unsigned t) { int c = 0; for (int a = 0; a < N
 static int ins_begun_before(int k, unsigned t) { int c = 0; for (int a = 0; a < NT; a++) for (int s = 0; s < 2; s++) { struct op* o = &H[a][s]; if (o->used && o->kind == OP_INSERT && o->key == k && o->inv < t) c++; } return c; }
 static int ins_ok(int k) { return ins_done_before(k, ~0u); }
 
-static const int KEYS[10] = { PRE0, PRE1, PRE2, PRE3, KA0, KA1, KB0, KB1, KC0, KC1 };   /* all keys of the scenario (constants) */
+static const int KEYS[10] = { PRE0, PRE1, PRE2, PRE3, KA0, KA1, KB0, KB1, KC0, KC1 };   /* (a bucket number passed to a 'g' body is harmless here: it is never inserted) */
+#define KEYS_DOC   /* all keys of the scenario (constants) */
 static u64 sok_of(int v) { u64 r = 0; for (int x = 0; x < 10; x++) if (KEYS[x] == v) r = vp_key_regular(vp_hash(KEYS[x])); return r; }
 /* every node ever created: head + value nodes + dummy nodes */
 #define MAXN (1 + NV + ND)
@@ -282,6 +286,10 @@ int main(void) {
       if (lo > 1) lo = 1; if (hi > 1) hi = 1;
 #endif
       VP_ASSERT(o->ok >= lo && o->ok <= hi, "count() outside [completed inserts, started inserts]");
+    } else if (o->kind == OP_GETBUCKET) {
+      /* get_bucket(b) returns the one dummy node of bucket b: in the list, carrying b's dummy key, registered in the table */
+      VP_ASSERT(got_bucket[a] != 0 && got_bucket[a] == vp_us_bucket_raw(SP, (u64)k), "get_bucket returned a node that is not the registered dummy node of the bucket");
+      VP_ASSERT(vp_node_sokey((void*)got_bucket[a]) == vp_key_dummy((u64)k), "get_bucket returned a node with a different order key");
     } else if (o->kind == OP_TRAVERSE) {
       /* per (constant) key of the scenario: seen at least as often as it was present before the traversal began, at most as often
          as inserts of it had begun before the traversal ended; nothing else is seen; visiting order = list order */
